@@ -8,7 +8,7 @@
    [EndsD i dp dt]        : one more [next] answers Done at that cost. *)
 From Coq Require Import List ZArith Bool Arith.
 From YV Require Import Common.Corr Model.Queries Model.Streams
-  Lemmas.StreamsMono Lemmas.StreamsSteps Lemmas.StreamsPipeline Lemmas.StreamsPipeline2 Lemmas.StreamsEnds.
+  Lemmas.StreamsMono Lemmas.StreamsSteps Lemmas.StreamsPipeline Lemmas.StreamsPipeline2 Lemmas.StreamsEnds Lemmas.StreamsGeneric Lemmas.StreamsAll.
 Import ListNotations.
 
 (* fuel only bounds the search for an answer: an answer, once given, is final *)
@@ -175,6 +175,45 @@ Proof. exact pipeline_end_cost. Qed.
 Theorem C14_deterministic : forall l i a b i1 a' b' i1', StepsD i l a b i1 -> StepsD i l a' b' i1' -> a = a' /\ b = b' /\ i1 = i1'.
 Proof. exact StepsD_det. Qed.
 
+(* C14_bound_all: ONE statement over the property's whole operator list.  [aop] ranges over select, where,
+   skip, take, takeWhile, skipWhile, enumerate, memorize (= member projection, a transparent per-element wrapper),
+   append/concat/+, accumulate (with or without seed), the iterator limiter, distinct (with or without key
+   selector; it stops being determined at the first unhashable key, where the code raises), zip with literal
+   collections, insert, insertMany, delete, replace/replaceMany, slice, selectMany and join's outer side.
+   [aouts_all]/[aneed_all]/[atks_all] are list-level functions: the outputs the inspected source prefix determines,
+   the number of source elements the first k of them depend on, and the lambda applications they take.  For every
+   such pipeline over the endless source, every start value, every k within the determined outputs and every
+   state: the first k results are produced with finite fuel at EXACTLY aneed_all pulls (hence <= need + 1) and
+   EXACTLY atks_all lambda applications. *)
+Theorem C14_bound_all : forall (ops : list aop) k0 n k s,
+  let xs := src_prefix k0 n in
+  k <= length (aouts_all ops xs) ->
+  exists fuel s' i',
+    run fuel s (abuild_all ops (Src k0)) k = (s', firstn k (aouts_all ops xs), Running i') /\
+    pulls s' = pulls s + aneed_all ops xs k /\
+    pulls s' <= pulls s + aneed_all ops xs k + 1 /\
+    ticks s' = ticks s + atks_all ops xs k.
+Proof. exact apipeline_demand_run. Qed.
+
+(* the same through `pipeline.take(k)` consumed to the end - what the correspondence observes *)
+Theorem C14_take_k_all : forall (ops : list aop) k0 n k s,
+  let xs := src_prefix k0 n in
+  k <= length (aouts_all ops xs) ->
+  exists fuel s',
+    drain fuel s (ISlice 0 (Some k) (abuild_all ops (Src k0))) = (s', Ok (firstn k (aouts_all ops xs))) /\
+    pulls s' = pulls s + aneed_all ops xs k /\ ticks s' = ticks s + atks_all ops xs k.
+Proof. exact atake_k_drain. Qed.
+
+(* the generic fact behind it: an operator that, per input element, emits some outputs (each at a tick cost),
+   spends some more ticks and changes state, consumes exactly [tneed] inputs for k outputs *)
+Theorem C14_transducer : forall (Q : Type) (T : Q -> it -> it) out tr nq live,
+  (forall q i x i1 dp dt, live q x = true -> YieldsD i x i1 dp dt ->
+     FollowsP (T q i) dp dt (out q x) (tr q x) (T (nq q x) i1)) ->
+  forall q i xs cp ct, Like i xs cp ct ->
+  Like (T q i) (touts Q out nq live q xs) (fun k => cp (tneed Q out nq live q xs k))
+       (fun k => ct (tneed Q out nq live q xs k) + ttks Q out tr nq live q xs k).
+Proof. exact trans_like. Qed.
+
 (* state-free form *)
 Theorem C14_demand : forall ops k0 n k,
   let xs := src_prefix k0 n in
@@ -204,6 +243,22 @@ Example C14_example_end :
                 k_vals := ONone; k_pulls := 0; k_ticks := 0 |} = (mkst 7 11, OVal (VList false [VInt 0; VInt 2; VInt 4])).
 Proof. vm_compute. repeat split. Qed.
 
+(* sequence(0).distinct($ mod 3).insert(1, 9).selectMany([$, $]).slice(2).join([1, 2], $1 > $2, ..) style pipelines:
+   the list-level demand agrees with the machine, here on one with every kind of new operator *)
+Example C14_example_all :
+  let ops := [ADelete 1 2; AInsert 1 (VInt 9); ASelectMany LPair; ASlice 1; AZip [[VInt 7; VInt 8; VInt 9; VInt 10]]] in
+  aouts_all ops (src_prefix 0 12) =
+    [VList false [VList false [VInt 0; VInt 0]; VInt 7]; VList false [VList false [VInt 9; VInt 9]; VInt 8];
+     VList false [VList false [VInt 3; VInt 3]; VInt 9]; VList false [VList false [VInt 4; VInt 4]; VInt 10]] /\
+  aneed_all ops (src_prefix 0 12) 3 = 4 /\ atks_all ops (src_prefix 0 12) 3 = 3 /\
+  eval_kcase {| k_start := 0; k_stages := [SDelete 1 (Some 2%Z); SInsert 1 (VInt 9); SSelectMany LPair; SSlice 2;
+                                           SZip [[VInt 7; VInt 8; VInt 9; VInt 10]]]; k_take := Some 3;
+                k_vals := ONone; k_pulls := 0; k_ticks := 0 |}
+  = (mkst 4 3, OVal (VList false [VList false [VList false [VInt 0; VInt 0]; VInt 7]; VList false [VList false [VInt 9; VInt 9]; VInt 8];
+                                  VList false [VList false [VInt 3; VInt 3]; VInt 9]])).
+Proof. vm_compute. repeat split. Qed.
+
+Print Assumptions C14_bound_all.
 Print Assumptions C14_bound.
 Print Assumptions C14_bound_partial.
 Print Assumptions C14_short_circuit.
